@@ -178,6 +178,11 @@ func (g *FnGen) evalIdent(env *Env, name string) SVal {
 	if v, ok := env.bound[name]; ok {
 		return v
 	}
+	if env.clause != nil && env.clause.Rename != nil && env.depth == 0 {
+		if n, ok := env.clause.Rename[name]; ok {
+			name = n
+		}
+	}
 	if name == "result" {
 		if len(env.results) == 0 {
 			env.fail("result used but function has no result here")
@@ -287,6 +292,9 @@ func (g *FnGen) evalSel(env *Env, x *ESel) SVal {
 	}
 	st, ok := t.Underlying().(*types.Struct)
 	if !ok {
+		if gf, ok := w.ghosts[namedName(t)+"."+x.F]; ok {
+			return g.ghostSel(env, gf, namedName(t), x.F, b)
+		}
 		env.fail("field %s of non-struct %s", x.F, typeName(b.T))
 	}
 	for i := 0; i < st.NumFields(); i++ {
@@ -300,21 +308,7 @@ func (g *FnGen) evalSel(env *Env, x *ESel) SVal {
 	}
 	// ghost field
 	if gf, ok := w.ghosts[namedName(t)+"."+x.F]; ok && isPtr {
-		key := "F:" + namedName(t) + "." + x.F
-		var ft types.Type
-		srt := gf.Sort
-		if !strings.HasPrefix(srt, "`") {
-			var err error
-			ft, err = w.resolveType(gf.Pkg, gf.Sort)
-			if err != nil {
-				env.fail("%v", err)
-			}
-			srt = w.sortOf(ft)
-		} else {
-			srt = strings.Trim(srt, "`")
-		}
-		w.heapSort[key] = fmt.Sprintf("(Array Int %s)", srt)
-		return SVal{Term{fmt.Sprintf("(select %s %s)", g.hget(env.st, key).S, b.S), srt}, ft}
+		return g.ghostSel(env, gf, namedName(t), x.F, b)
 	}
 	env.fail("no field %s in %s", x.F, typeName(t))
 	return SVal{}
@@ -332,7 +326,7 @@ func (g *FnGen) indexVal(env *Env, b, i SVal) SVal {
 		}
 		key, es := w.sliceKey(sl.Elem())
 		s := b.Sort
-		return SVal{Term{fmt.Sprintf("(select (select %s (arr_%s %s)) (+ (off_%s %s) %s))", g.hget(env.st, key).S, s, b.S, s, b.S, i.S), es}, sl.Elem()}
+		return SVal{Term{w.elemTerm(s, es, g.hget(env.st, key).S, b.S, i.S), es}, sl.Elem()}
 	case strings.HasPrefix(b.Sort, "(Array "):
 		// logical array
 		parts := splitSorts(b.Sort[len("(Array ") : len(b.Sort)-1])
@@ -591,6 +585,33 @@ func (g *FnGen) evalCall(env *Env, x *ECall) SVal {
 		name := q(fmt.Sprintf("pure:%s:%d", key, idx))
 		w.decl(name+strings.Join(ss, ","), fmt.Sprintf("(declare-fun %s (%s) %s)", name, strings.Join(ss, " "), srt))
 		return SVal{Term{fmt.Sprintf("(%s %s)", name, strings.Join(as, " ")), srt}, rt}
+	case "callresult", "called":
+		key := x.Args[0].(*EStr).V
+		k := 1
+		fmt.Sscanf(x.Args[1].(*EInt).V, "%d", &k)
+		id := fmt.Sprintf("%s#%d", key, k)
+		rs, ok := g.callRes[id]
+		if x.Fn == "called" {
+			if !ok {
+				return SVal{Term{"false", "Bool"}, boolT}
+			}
+			return SVal{Term{g.callReach[id], "Bool"}, boolT}
+		}
+		if !ok {
+			env.fail("callresult: no call %s on the way to this point", id)
+		}
+		i := 0
+		if len(x.Args) > 2 {
+			fmt.Sscanf(x.Args[2].(*EInt).V, "%d", &i)
+		}
+		if i >= len(rs) {
+			env.fail("callresult: %s has %d results", id, len(rs))
+		}
+		var rt types.Type
+		if f := w.findFunc(key); f != nil && i < f.Signature.Results().Len() {
+			rt = f.Signature.Results().At(i).Type()
+		}
+		return SVal{rs[i], rt}
 	case "seqeq":
 		// extensional equality of two slices in the current state
 		a, b := arg(0), arg(1)
@@ -626,6 +647,44 @@ func (g *FnGen) evalCall(env *Env, x *ECall) SVal {
 				}
 			}
 			n.vars[pp.Name] = v
+		}
+		if p.Opaque && g.track == nil {
+			bound := false
+			var as, ss []string
+			for _, pp := range p.Params {
+				v := n.vars[pp.Name]
+				if strings.Contains(v.S, "|b:") {
+					bound = true
+				}
+				as = append(as, v.S)
+				ss = append(ss, v.Sort)
+			}
+			if !bound {
+				g.track = map[string]Term{}
+				g.trackOrder = nil
+				body := g.eval(&n, p.Body)
+				keys := g.trackOrder
+				tr := g.track
+				g.track = nil
+				for _, k := range keys {
+					as = append(as, tr[k].S)
+					ss = append(ss, tr[k].Sort)
+				}
+				name := q("opq:" + p.Name)
+				sig := strings.Join(ss, " ")
+				if prev, ok := w.opqSig[p.Name]; ok && prev != sig {
+					// different heap footprint at this use: fall back to the plain expansion
+					return body
+				}
+				w.opqSig[p.Name] = sig
+				w.decl("opq:"+p.Name, fmt.Sprintf("(declare-fun %s (%s) %s)", name, sig, body.Sort))
+				app := fmt.Sprintf("(%s %s)", name, strings.Join(as, " "))
+				if len(as) == 0 {
+					app = name
+				}
+				g.emit(fmt.Sprintf("(assert (= %s %s))", app, body.S))
+				return SVal{Term{app, body.Sort}, body.T}
+			}
 		}
 		return g.eval(&n, p.Body)
 	}
@@ -663,4 +722,23 @@ func (g *FnGen) evalCall(env *Env, x *ECall) SVal {
 func isNilT(t types.Type) bool {
 	b, ok := t.(*types.Basic)
 	return ok && b.Kind() == types.UntypedNil
+}
+
+func (g *FnGen) ghostSel(env *Env, gf *GhostField, tname, field string, b SVal) SVal {
+	w := g.w
+	key := "F:" + tname + "." + field
+	var ft types.Type
+	srt := gf.Sort
+	if !strings.HasPrefix(srt, "`") {
+		var err error
+		ft, err = w.resolveType(gf.Pkg, gf.Sort)
+		if err != nil {
+			env.fail("%v", err)
+		}
+		srt = w.sortOf(ft)
+	} else {
+		srt = strings.Trim(srt, "`")
+	}
+	w.heapSort[key] = fmt.Sprintf("(Array Int %s)", srt)
+	return SVal{Term{fmt.Sprintf("(select %s %s)", g.hget(env.st, key).S, b.S), srt}, ft}
 }
